@@ -133,7 +133,7 @@ func defectBlock(kind string, n int, r *Rand) string {
 		// reference chain that ends in one of those, an ENUM name) referenced from every place that
 		// takes a type: most places assume an object written in the jsight notation
 		decl := []string{" regex\n  /ab+/", " any", "\n  1", "\n  \"s\"", "\n  [1, 2]", "\n  null", "\n  {}", "\n  @nmB%d", " empty", "\n  true // {nullable: true}", "\n  {\"id\": 1} // {additionalProperties: true}",
-			"\n  @nmA%d // {nullable: true}", "\n  @nmB%d // {nullable: true}", " regex\n  /\\x01z/", " regex\n  /[\\x00-\\x1f]{2}/", " regex\n  /[^\\x00-\\x7F]/", " regex\n  /[\\x{10000}-\\x{10FFFF}]x/"}
+			"\n  @nmA%d // {nullable: true}", "\n  @nmB%d // {nullable: true}", " regex\n  /\\x01z/", " regex\n  /[\\x00-\\x1f]{2}/", " regex\n  /[^\\x00-\\x7F]/", " regex\n  /[\\x{10000}-\\x{10FFFF}]x/", " regex\n  /([^\\x00-\\x7F]+|abc)/", " regex\n  /x[^\\x00-\\x7F]?/"}
 		d := decl[r.Intn(len(decl))]
 		if strings.Contains(d, "%d") {
 			d = fmt.Sprintf(d, n)
